@@ -259,6 +259,176 @@ def project_servermux(beh, rng, ids=("A", "B"), sizes=None, name="", kinds=("cut
 
 
 # --------------------------------------------------------------------------
+# Projection of Tunnel behaviours onto rig scenarios
+
+C01_SIZES = [0, 1, 300, 1400, 20000, 100000, 100000, 400000, 400000, 1000000]
+
+
+def project_tunnel(beh, rng, sessions=("A", "B"), sizes=None, name="", big=0.03):
+    """One Tunnel(_Gen) behaviour -> one fault schedule for corerig: per
+    session the carriers it popped in order, each with its fault."""
+    sizes = sizes or C01_SIZES
+    car, owner, att = {}, {}, {}
+    upin, downin = {}, {}        # segment in flight on the carrier
+    upc, downc = {}, {}          # segments passed on the carrier
+    cur = {}
+    plan = {}                    # k -> carrier dict
+    sess = {}
+    pending_refuse = 0
+    waited = {}                  # session -> the pool was empty while it had no carrier
+    faults = 0
+    kinds = set()
+
+    def session(s):
+        if s not in sess:
+            def size():
+                return rng.choice([1 << 20, 4 << 20]) if rng.random() < big else rng.choice(sizes)
+            sess[s] = {"up": size(), "down": size(), "carriers": []}
+        return sess[s]
+
+    def cap(s):
+        return max(1, min(sess[s]["up"], sess[s]["down"]) // 1400 // 3)
+
+    def scale(c, s):
+        if c <= 0:
+            return 0
+        if c == 1:
+            return min(cap(s), rng.randint(1, 3))
+        return min(cap(s), rng.randint(3, 40))
+
+    for act, args in beh:
+        if act == "Collect":
+            car[args[0]] = "pool"
+        elif act == "AnswerLost":
+            car[args[0]] = "dead"
+            pending_refuse += 1
+            faults += 1
+            kinds.add("answerlost")
+        elif act == "Pop":
+            s, k = args
+            c = {"label": "", "ip": rng.choice(["192.0.2.7", "2001:db8::5", None, "0.0.0.0"]), "pres": "id"}
+            if pending_refuse:
+                c["refuse"] = pending_refuse
+                pending_refuse = 0
+            if waited.pop(s, False):
+                c["delay_ms"] = rng.choice([30, 100, 300])
+                kinds.add("noproxy")
+            session(s)["carriers"].append(c)
+            plan[k], owner[k], car[k] = c, s, "popped"
+        elif act == "WriteId":
+            s, k = args
+            # a predecessor whose server side is still attached is half-open
+            for j, cj in plan.items():
+                if owner.get(j) == s and j != k and att.get(j) and cj.get("fault") and cj["fault"]["kind"] == "cut" and cj["fault"]["cls"] not in ("tok", "id"):
+                    cj["fault"]["kind"] = "cutcli"
+                    cj["fault"]["hold_ms"] = rng.choice([200, 600, 1500])
+                    kinds.add("halfopen")
+            car[k], cur[s], att[k] = "live", k, True
+        elif act == "WriteIdFails":
+            car[args[1]] = "dead"
+        elif act == "StaleClose":
+            s = args[0]
+            if cur.get(s):
+                car[cur[s]] = "dead"
+            cur[s] = 0
+        elif act == "CarrierUp":
+            k = cur.get(args[0])
+            if k and car.get(k) == "live":
+                upin[k] = True
+        elif act == "ServerRecv":
+            upin[args[0]] = False
+            upc[args[0]] = upc.get(args[0], 0) + 1
+        elif act == "DownFrame":
+            k = args[0]
+            if car.get(k) == "live":
+                downin[k] = True
+        elif act == "ClientRecv":
+            k = cur.get(args[0])
+            if k:
+                downin[k] = False
+                downc[k] = downc.get(k, 0) + 1
+        elif act == "SrvDetach":
+            att[args[0]] = False
+        elif act in ("Cut", "Freeze"):
+            k = args[0]
+            c = plan.get(k)
+            if c is None:
+                continue
+            s = owner[k]
+            faults += 1
+            if act == "Cut" and car.get(k) == "popped":
+                f = {"kind": "cut", "dir": "up", "cls": "tok", "nth": rng.randint(0, 7)}
+                kinds.add("cut-before-token")
+            elif act == "Cut":
+                if upin.get(k):
+                    f = {"kind": "cut", "dir": "up", "cls": rng.choice(["pfx", "body"]), "nth": scale(upc.get(k, 0), s)}
+                elif downin.get(k):
+                    f = {"kind": "cut", "dir": "down", "cls": rng.choice(["pfx", "body"]), "nth": scale(downc.get(k, 0), s)}
+                else:
+                    d = rng.choice(["up", "down"])
+                    f = {"kind": "cut", "dir": d, "cls": rng.choice(["bnd", "bnd", "id"]) if d == "up" and upc.get(k, 0) == 0 else "bnd",
+                         "nth": scale((upc if d == "up" else downc).get(k, 0), s)}
+                    if f["cls"] == "id":
+                        f["nth"] = rng.randint(0, 7)
+                if rng.random() < 0.3:
+                    f["rst"] = True
+                kinds.add("cut-" + f["cls"])
+                car[k] = "dead"
+                if cur.get(s) == k:
+                    cur[s] = 0
+            else:
+                d = rng.choice(["up", "down"])
+                f = {"kind": rng.choice(["stall", "stall", "cutsrv"]), "dir": d, "cls": "bnd", "nth": scale((upc if d == "up" else downc).get(k, 0), s)}
+                kinds.add("freeze")
+                car[k] = "frozen"
+            upin[k] = downin[k] = False
+            c["fault"] = f
+        # the pool is empty while a session has no carrier: Pop blocks
+        for s in sessions:
+            if s in sess or act == "Init":
+                if not cur.get(s) and not any(v == "pool" for v in car.values()) and not any(car.get(k) == "popped" and owner.get(k) == s for k in car):
+                    waited[s] = True
+    for s in sessions:
+        session(s)
+    out = [sess[s] for s in sessions]
+    for sp in out:
+        if not sp["carriers"]:
+            sp["carriers"].append({"label": "", "ip": None, "pres": "id"})
+    sc = {"name": name, "seed": rng.getrandbits(48), "sessions": out}
+    return sc, {"faults": faults, "kinds": kinds, "carriers": sum(len(x["carriers"]) for x in out)}
+
+
+def dot_paths(dotfile, limit=3000, maxlen=60):
+    """Maximal acyclic paths of a `-dump dot,actionlabels` graph, as lists of
+    (action, args)."""
+    nodes, edges, inits = vlib.parse_dot(dotfile)
+    succ = {}
+    for a, b, lab in edges:
+        if a != b:
+            succ.setdefault(a, []).append((b, lab))
+    paths = []
+    import sys
+    sys.setrecursionlimit(10000)
+
+    def dfs(n, path, seen):
+        if len(paths) >= limit:
+            return
+        nxt = [(b, lab) for b, lab in succ.get(n, []) if b not in seen]
+        if not nxt or len(path) >= maxlen:
+            paths.append(list(path))
+            return
+        for b, lab in nxt:
+            seen.add(b)
+            path.append(parse_label(lab))
+            dfs(b, path, seen)
+            path.pop()
+            seen.discard(b)
+    for i in sorted(inits):
+        dfs(i, [], {i})
+    return paths
+
+
+# --------------------------------------------------------------------------
 # Running the rig
 
 def run_rig(binary, scenarios, par=48, bound_ms=60000, stale_ms=600, timeout=600, tag="rig", env=None):
@@ -288,8 +458,21 @@ def run_rig(binary, scenarios, par=48, bound_ms=60000, stale_ms=600, timeout=600
 # --------------------------------------------------------------------------
 # Trace validation in shards
 
+MAX_TRACE_CARRIERS = 60      # the trace specifications provide 64 carrier slots
+
+
 def _trace_lines(res):
-    return [json.dumps(e, separators=(",", ":")) for e in res["events"]]
+    """The events of one scenario; a pathological run that dialled more
+    carriers than the trace specification has slots for is validated up to
+    that point only (a prefix of a behaviour is a behaviour)."""
+    out, opens = [], 0
+    for e in res["events"]:
+        if e["ev"] == "car.open":
+            opens += 1
+            if opens > MAX_TRACE_CARRIERS:
+                break
+        out.append(json.dumps(e, separators=(",", ":")))
+    return out
 
 
 def _validate_shard(specdir, module, cfg, shard, timeout, max_bad=3):
@@ -387,3 +570,38 @@ def signature(pid, res, kind, detail, local, ev):
     else:
         what = kind
     return "%s/%s/after:%s" % (pid, re.sub(r"\s+", "-", what), fault_position(res, local))
+
+
+def judge(chk, pid, rigbin, scenarios, results, specdir, module, trace_cfg="Trace.cfg", confirm_stalls=True, bound_ms=60000, stale_ms=600, known_stall=None):
+    """Trace validation + stall confirmation -> violations."""
+    by_name = {s["name"]: s for s in scenarios}
+    bad = validate(chk, specdir, module, trace_cfg, [results[n] for n in sorted(results)])
+    for res, kind, detail, local, ev in bad:
+        sig = signature(pid, res, kind, detail, local, ev)
+        chk.violation(sig, "trace of scenario %s: %s %s at event %s %s" % (res["name"], kind, detail, local, ev),
+                      {"scenario": by_name.get(res["name"]), "event_index": local, "event": ev, "kind": kind, "detail": detail,
+                       "events": res["events"][:max(60, (local or 0) + 5)]})
+    stalled = [n for n in sorted(results) if results[n].get("stalled")]
+    if stalled and bad:
+        chk.note("%d scenario(s) stalled; not confirmed separately because safety violations were already observed" % len(stalled))
+    elif stalled and confirm_stalls:
+        chk.note("%d scenario(s) stalled; confirming alone with doubled limits: %s" % (len(stalled), stalled[:3]))
+        confirm = [dict(by_name[n], name=n + "-confirm") for n in stalled[:3]]
+        r2, _, _, _ = run_rig(rigbin, confirm, par=1, bound_ms=2 * bound_ms, stale_ms=stale_ms,
+                                      timeout=len(confirm) * (2 * bound_ms / 1000 + 60) + 60, tag="confirm")
+        for sc in confirm:
+            res2 = r2[sc["name"]]
+            n = sc["name"][:-len("-confirm")]
+            if res2.get("stalled"):
+                sig = "%s/stall/after:%s" % (pid, fault_position(res2, None))
+                chk.violation(sig, "session made no progress for %d ms after the last fault although healthy carriers were available: %s" % (2 * bound_ms, res2.get("state")),
+                              {"scenario": by_name[n], "state": res2.get("state")})
+            else:
+                chk.note("stall of %s not reproduced alone (load artefact)" % n)
+                bad2 = validate(chk, specdir, module, trace_cfg, [res2])
+                for res, kind, detail, local, ev in bad2:
+                    chk.violation(signature(pid, res, kind, detail, local, ev), "trace of scenario %s: %s %s at event %s %s" % (res["name"], kind, detail, local, ev),
+                                  {"scenario": by_name[n], "event_index": local, "event": ev, "kind": kind, "detail": detail})
+    return bad, stalled
+
+
